@@ -170,3 +170,58 @@ class ec_multiplied_roundtrip:
 
     def sample(rng):
         return {'n': rng.randrange(10 ** 6)}
+
+
+@contract('bitcoinlib.keys.Key.encrypt', case='plain-mode-spec-native', props=('C15',))
+class plain_mode_spec:
+    """Plain (non-EC-multiplied) BIP38 against an independent statement of the specification: scrypt(passphrase as UTF-8 text in NFC, salt = first four
+    bytes of SHA256d(P2PKH address), N = 16384, r = p = 8), two AES-256 blocks over key XOR derived half 1, prefix 0142, flag e0 / c0.  The passphrases
+    include text that LOOKS like hexadecimal ('1234', 'abcd', 'DEADBEEF'), whose characters - not the bytes they would spell - are the passphrase, and
+    composed characters.  Key.encrypt must give the reference string, the reference string must decrypt to the key, and a passphrase differing only in
+    case must be refused (native evaluation only: scrypt / AES are third-party)."""
+    params = {'secret': Int(1, 2 ** 255), 'compressed': Bool, 'pw': Int(0, 10 ** 6)}
+    native_only = True
+    bounded = 'random keys x 8 passphrases (ASCII, hex-looking, composed characters)'
+
+    def build(secret, compressed, pw):
+        import hashlib, unicodedata
+        from Crypto.Cipher import AES
+        from spec import base58 as _b58, ec as _ec
+        from bitcoinlib.keys import Key
+        words = ['Satoshi', '1234', 'abcd', 'DEADBEEF', '00', 'cafe babe', 'c0ffee', 'école']
+        p = words[pw % len(words)]
+
+        def reference():
+            pt = _ec.mul_g(secret)
+            pub = (bytes([2 + (pt[1] & 1)]) + pt[0].to_bytes(32, 'big')) if compressed else b'\x04' + pt[0].to_bytes(32, 'big') + pt[1].to_bytes(32, 'big')
+            h160 = hashlib.new('ripemd160', hashlib.sha256(pub).digest()).digest()
+            addr = _b58.check_encode(b'\x00' + h160)
+            ah = hashlib.sha256(hashlib.sha256(addr.encode()).digest()).digest()[:4]
+            d = hashlib.scrypt(unicodedata.normalize('NFC', p).encode('utf-8'), salt=ah, n=16384, r=8, p=8, dklen=64, maxmem=64 * 1024 * 1024)
+            k = secret.to_bytes(32, 'big')
+            aes = AES.new(d[32:], AES.MODE_ECB)
+            e1 = aes.encrypt(bytes(a ^ b for a, b in zip(k[:16], d[:16])))
+            e2 = aes.encrypt(bytes(a ^ b for a, b in zip(k[16:], d[16:32])))
+            return _b58.check_encode(b'\x01\x42' + (b'\xe0' if compressed else b'\xc0') + ah + e1 + e2)
+
+        def run():
+            ref = reference()
+            out = {'passphrase': p, 'reference': ref}
+            k = Key(secret, compressed=compressed, network='bitcoin')
+            out['encrypt'] = k.encrypt(p)
+            try:
+                k2 = Key(ref, password=p, network='bitcoin')
+                out['decrypt'] = (k2.secret, k2.compressed)
+            except Exception as e:
+                out['decrypt'] = 'raises %s' % type(e).__name__
+            other = p.swapcase() if p.swapcase() != p else p + ' '
+            try:
+                k3 = Key(out['encrypt'], password=other, network='bitcoin')
+                out['other'] = 'accepted %x' % k3.secret
+            except Exception:
+                out['other'] = 'refused'
+            return out
+        return run, [], {}
+
+    def ensures(secret, compressed, pw, result):
+        return result['encrypt'] == result['reference'] and result['decrypt'] == (secret, compressed) and result['other'] == 'refused'
